@@ -26,7 +26,8 @@ EXPLANATION = (
 )
 # obligations added during the build phase (seeding rounds, twins, mutation analysis)
 ADDED_IN_BUILD = ' Also: VALUES-ONLY - the C10.c obligations of all six detectors (no cache of an earlier call keyed on the index); check_series keeps index names at every call site (sibling agreement); drivers-positional - every value a detection driver returns is an array / list, never a labelled pandas object that `pd.Series(values, index=X.index)` would re-align; AS-2D - the three cases of as_2d_array decided on facts about the rank of the operand as given (a squeezed / reshaped operand has a rank of its own). COLUMNS-BY-POSITION (C16.c frame): dense outputs have one column per input column whatever the labels. shape[k >= 1] and tuple-unpacking of .shape of the un-normalised argument count as container-specific uses.'
-EXPLANATION = EXPLANATION + ADDED_IN_BUILD
+ADDED_IN_ROUND_9 = ' Round 9: CARRY-INDEX judges pandas objects that are returned by the entry point or stored on the detector; an n-row Series that only serves a computation inside the method is not an output.'
+EXPLANATION = EXPLANATION + ADDED_IN_BUILD + ADDED_IN_ROUND_9
 
 ASSUMPTIONS = [
     "Python's ast module and evaluation-order/argument-binding semantics as implemented in skverif/symex.py",
